@@ -18,7 +18,7 @@ REQUIRED_CLASSES = {t: ["names:equal", "names:disjoint", "names:prm_contained_in
                         "names:overlapping", "order:permuted_levels", "keys:equal_tuples_in_permuted_level_order", "levels:3", "unnamed_level", "keys:int", "keys:str",
                         "keys:interval", "keys:coinciding_positions", "lengths:equal", "lengths:unequal", "obj:Series",
                         "obj:DataFrame", "prm:Series", "prm:DataFrame", "prm:scalar", "prm:array", "prm:array_float64", "prm:array_int",
-                        "prm:array_float32", "prm:list_of_int", "end_to_end:woehler", "index_object_shared_with_sibling"]
+                        "prm:array_float32", "prm:list_of_int", "end_to_end:woehler", "end_to_end:per_row_native_probability", "index_object_shared_with_sibling"]
                     for t in ("quick", "thorough")}
 REQUIRED_MONITORS = ["contract:operands_unchanged", "contract:identical_result_index",
                      "contract:result_row==original_value_for_key", "contract:no_original_row_lost",
@@ -28,6 +28,7 @@ RULE = ("seeded operand pairs: object and parameter as Series/DataFrame over 1..
         "int/str/interval keys, key sets chosen so that positional codes coincide, equal and unequal lengths, unnamed "
         "levels, scalar and array parameters; plus end-to-end Woehler evaluation (per-element curves x per-scenario loads) "
         "against a scalar loop. The icontract contract on Broadcaster.broadcast judges every call, including the ones the "
+        "Widened during the build: array parameters of several dtypes, equal key tuples in permuted level order, sibling objects built on the operands' own Index objects, every broadcast done twice. "
         "accessors make internally. Non-trivial: both operands indexed with >= 2 rows; distinct = distinct configuration.")
 ASSUMPTIONS = ["a Series *object* broadcast to an array parameter is a parameter set: its index holds string names (documented use)",
                "operand keys are unique per operand (a key-lookup oracle needs unique keys); duplicates are skipped and counted",
@@ -261,6 +262,14 @@ def _woehler(ctx, rng):
         loads = pd.Series(rng.uniform(80, 600, len(idx)), index=idx).sample(frac=1.0, random_state=int(rng.integers(0, 1000)))
     ctx.nontrivial(True)
     p = float(rng.uniform(0.05, 0.95))
+    if rng.random() < 0.5:
+        # curves given for different failure probabilities (one material tested at 10 %, another at 50 %); the scalar target
+        # is broadcast against that column and coincides with the native probability of some rows
+        fps = rng.choice([0.5, 0.1, 0.9, 0.025], m)
+        fps[0] = 0.5
+        curves["failure_probability"] = fps
+        p = float(rng.choice([0.5, float(fps[-1]), p]))
+        ctx.tag("end_to_end:per_row_native_probability")
     res = curves.woehler.cycles(loads, p)
     ok, bad = isinstance(res, pd.Series) and len(res) == m * q, None
     if ok:
